@@ -270,6 +270,22 @@ def register2(w):
     w.lemma("ascii-digit-field", ["req:str", "mid:str", "f:str"],
             hyp=["req.isascii()", "mid in req", "f in mid", "f.isdigit()"], goal=["ascii_digits(f)"], props=["C03", "C20", "C01", "C04", "C05", "C06"],
             note="a field of an ASCII request line that passes str.isdigit() consists of ASCII digits, so int() of it is exact and cannot raise")
+    def unbuffered(world):
+        """The connection handler writes straight to the socket (StreamRequestHandler.wbufsize stays 0): a write to a
+        dead peer fails inside protohandler.handle(), where it is caught and logged, not later in finish()."""
+        import ast as _ast
+        ci = world.repo.cls("GopherRequestHandler")
+        bad = []
+        for st in ci.node.body:
+            if isinstance(st, (_ast.Assign, _ast.AnnAssign)):
+                names = [t.id for t in (st.targets if isinstance(st, _ast.Assign) else [st.target]) if isinstance(t, _ast.Name)]
+                if any(n in ("wbufsize", "rbufsize", "finish", "setup") for n in names):
+                    bad.append("GopherRequestHandler sets %s" % names)
+            if isinstance(st, _ast.FunctionDef) and st.name in ("finish", "setup"):
+                bad.append("GopherRequestHandler overrides %s()" % st.name)
+        return (not bad, bad or "no buffering attribute or finish()/setup() override")
+
+    w.astcheck("C20.ast.unbuffered-wfile", ["C20"], unbuffered)
     w.contract("iface::AnyProtocol.handle", modifies=["ghost.nescaped"], raises={"OSError": True}, assumed=True,
                ghost={"nescaped": "int"},
                ensures=["ghost.nescaped == old(ghost.nescaped)"], on_raise={"OSError": ["ghost.nescaped == old(ghost.nescaped) + 1"]},
